@@ -120,6 +120,8 @@ class GraphWorld:
         self.choices = choices
         self.directed = cfg["directed"]
         self.methods = repo_methods or {}
+        from .core import CLASSES as _C
+        self.current_rel = _C.get(cfg.get("cls"))
         self.effects = []           # (effect tuple, line)
         self.errors = []
         self.node_created = {}      # role -> True when created in this run
